@@ -59,6 +59,25 @@ DET = {
  "C16-4": (["C16 quick"], "C16/non-empty-destination-accepted", False, "round 2. a destination holding only lost+found counts as empty: reserved names (lost+found, CONSERVE, GC_LOCK, b0000, ...) are now in the name pool and the pre-populated destination is sometimes exactly that"),
  "C18-3": (["C18 quick"], "C18/diff/...", True, "round 2. diff ignores sub-second mtime changes when the stored mtime is a whole second"),
  "C18-4": (["C18 quick"], "C18/backup-callback/file-expected-changed", True, "round 2. chown-only change reported unchanged by the backup callback"),
+ # ---- third round (same adversarial prompt, the other nine properties)
+ "C03-3": (["C03 quick", "C08 quick", "C12 quick"], "C03/interrupted-version-subtree-listing", False, "round 3. resume point recorded after the filters (as C08-1): C03 listed the interrupted version unfiltered only; it now also lists up to three of its directories and one exclusion"),
+ "C03-4": (["C08 quick"], "C08/listing-differs-from-stitching-rule/incomplete-straddling", False, "round 3. previous band search probes 16 ids then picks the OLDEST listed: needs an interrupted band with > 16 deleted ids below it and two older bands. Not reachable from C03's scenarios (the interrupted band is always the newest, id = last+1); caught by C08 after its id gaps were widened to 17..59"),
+ "C04-3": (["C04 quick"], "C04/dangling-reference", False, "round 3. AlreadyExists on a block write accepted as dedup if a file of that name exists: needs an empty leftover at exactly that path plus that fault kind; 40% of C04's cases now start with an empty file at the path of a block the backup will write"),
+ "C04-4": (["C04 quick"], "C04/dangling-reference", True, "round 3. hash claimed before create_dir (as C04-2)"),
+ "C06-3": (["C06 quick"], "C06/complete-version-names-removed-block/new-version", False, "round 3. band list sorted by name, last() instead of max(): needs b10000 beside b9999; a quarter of C06's cases renumber the versions so that the backup creates b10000 (histories of the other checks start at b9998 in a tenth of the cases)"),
+ "C06-4": (["C06 quick"], "C06/complete-version-names-removed-block/new-version", True, "round 3. the backup's second lock test moved below its block listing: found by the enumerated 3-switch schedules and by the corpus"),
+ "C07-3": (["C07 quick"], "C07/create-new-overwrites/large-payload", False, "round 3. writes over 2 MiB ignore CreateNew: the transport contract is now probed with payloads up to 3 MiB and a race over a shared 3 MiB single-block file is a fixed probe"),
+ "C07-4": (["C07 quick (scale probe many-hunks)", "C05 quick"], "C07/delete-removed-other-file/probe-many-hunks", False, "round 3. only the last index sub-directory is listed (> 10 000 hunks): gc removes referenced blocks; caught by the new probe"),
+ "C09-3": (["C09 quick (probe many-blocks)"], "C09/damage-not-reported/full/block/garbage/probe-many-blocks", False, "round 3. with > 1000 blocks validate drops errors of throttled tasks and BlockMissing is not reported for present blocks: caught by the new 3000-block probe"),
+ "C09-4": (["C09 quick (scale probe many-hunks)"], "C09/damage-not-reported/full/hunk/delete/probe-many-hunks", True, "round 3. gap consisting of hunk 9 999 unreported (the probe had been added after round 2)"),
+ "C11-3": (["C11 quick"], "C11/written-index-not-strictly-increasing", False, "round 3. index writer sorts only when it believes it must; wrong when a small file reads as empty because it was truncated during the backup: a tenth of C11's tree cases now truncate a later file of the same directory while the backup runs"),
+ "C11-4": (["C11 quick (scale probe many-hunks)", "C01 quick"], "C11/listing-not-strictly-increasing/probe-many-hunks", False, "round 3. hunk file names taken modulo 10 000: caught by the probe added to C11"),
+ "C12-3": (["C12 quick"], "C12/stitched-subtree-listing", True, "round 3. subtree filter before the resume point (as C12-2)"),
+ "C12-4": (["C12 quick (scale probe many-hunks)"], "C12/subtree-listing/probe-many-hunks", True, "round 3. seek over >= 128 hunks skips the hunk ending in the subtree root (the probe had been added before)"),
+ "C15-3": (["C15 quick"], "C15/list-differs-from-rule", False, "round 3. trailing '/' stripped from one of the two globs only: patterns may now end in '/', a glued '**', '/**' or '*'"),
+ "C15-4": (["C15 quick"], "C15/list-differs-from-rule", False, "round 3. no '/**' companion for patterns ending in '**' glued to a name: same generator extension"),
+ "C17-3": (["C17 quick (probe many-hunks, two backups)"], "C17/content-differs/hunk/probe-many-hunks", False, "round 3. index sub-directories listed in completion order, visible when a > 10 000-hunk band is the basis of the next backup: the probe now makes a second, incremental backup"),
+ "C17-4": (["C17 quick (probe wall-clock)", "C14 quick"], "C17/file-set-differs/probe-wall-clock", False, "round 3. files with an mtime ahead of the clock are always re-stored: the archive depends on the time of day. New probe: the same two backups replayed two seconds before and one second after the mtime of one file"),
 }
 
 for d in sorted(glob.glob("/verif/seeded/C*-*")):
